@@ -474,7 +474,12 @@ func c06Inject(r *hx.Run) {
 	n := 1 + rr.Intn(9)
 	var content []string
 	for i := 0; i < n; i++ {
-		content = append(content, strings.Repeat("x", rr.Intn(12)))
+		line := strings.Repeat("x", rr.Intn(12))
+		if rr.Intn(4) == 0 && len(line) > 2 {
+			k := rr.Intn(len(line) - 1)
+			line = line[:k] + hx.Pick(rr, []string{"é", "€", "ü"}) + line[k+1:]
+		}
+		content = append(content, line)
 	}
 	nd := 1 + rr.Intn(3)
 	if rr.Intn(12) == 0 {
@@ -541,6 +546,50 @@ func c06Inject(r *hx.Run) {
 	r.Count("inject:" + map[bool]string{true: "panic", false: "ok"}[impl == "PANIC"])
 	op, _ := json.Marshal(map[string]any{"n": n, "diags": jd})
 	r.Op("inject\t"+string(op), impl)
+	// the caret rows: one character per rune of the line, `^` under the selected columns
+	rows := func() (out string) {
+		defer func() {
+			if p := recover(); p != nil {
+				out = "PANIC"
+			}
+		}()
+		body := diags.InjectDiagnostics(strings.Join(content, "\n"), ds, output.None)
+		var parts []string
+		cur, width := -1, 0
+		var got []string
+		flush := func() {
+			if cur >= 0 {
+				parts = append(parts, fmt.Sprintf("%d:%s", cur, strings.Join(got, ",")))
+			}
+		}
+		for _, l := range strings.Split(body, "\n") {
+			if i := strings.Index(l, " | "); i >= 0 {
+				if k, err := strconv.Atoi(strings.TrimSpace(l[:i])); err == nil {
+					flush()
+					cur, got, width = k, nil, i
+					continue
+				}
+				if strings.TrimSpace(l[:i]) == "" && strings.HasSuffix(l, "[...]") {
+					continue
+				}
+			}
+			if i := strings.LastIndex(l, " MSG"); i >= 0 && len(l) >= width+3 {
+				got = append(got, strings.TrimSuffix(l[i+4:], "!")+"="+strings.ReplaceAll(l[width+3:i], " ", "_"))
+			}
+		}
+		flush()
+		return strings.Join(parts, ";")
+	}()
+	var offs [][]int
+	for _, l := range content {
+		o := []int{}
+		for i := range l {
+			o = append(o, i)
+		}
+		offs = append(offs, o)
+	}
+	op2, _ := json.Marshal(map[string]any{"offs": offs, "diags": jd})
+	r.Op("carets\t"+string(op2), rows)
 }
 
 func runC06(r *hx.Run, replay string) {
